@@ -4,6 +4,7 @@ import (
 	"fmt"
 	"go/token"
 	"go/types"
+	"os"
 	"sort"
 	"strings"
 
@@ -31,6 +32,17 @@ func checkC11(p *Program, r *Report) {
 	callFollowsFlag(p, r, m, "C11.R7")
 	c10ContainerConverters(p, r, m, "C11.R8")
 	c11InterfacePassThrough(p, r, m)
+	r.Explain("R10 inside one function, the places that copy elements of one sequence into another (all but the last parameter in a loop, the last one on its own, variadic or not) agree on the distance between source and destination index.")
+	r.Floor("C11.R10", indexOffsetsAgree(p, r, SrcFuncs(m.sp), "C11.R10"), 3)
+	if os.Getenv("ANKO_DBG_IDX") != "" {
+		for _, sfx := range []string{"env", "core", "parser", "ast/astutil", "packages", "cmd/anko"} {
+			if sp := p.SSAPkg(sfx); sp != nil {
+				indexOffsetsAgree(p, r, SrcFuncs(sp), "C11.R10")
+			}
+		}
+	}
+	r.Explain("R11 in the address-of handler the addressability test and Addr() are applied to the value the operand's evaluation left, not to a value derived from it.")
+	c11AddrOfSlot(p, r, m)
 	c11Args(p, r, m, sums, va)
 	c11Results(p, r, m)
 	c11Env(p, r)
@@ -2212,4 +2224,49 @@ func c11InterfacePassThrough(p *Program, r *Report, m *vmModel) {
 			bad+": a value handed to an interface{} parameter (typeOf, a Go function taking interface{}) is altered on the way: a typed nil arrives as the untyped nil")
 	}
 	r.Floor("C11.R9", n, 1)
+}
+
+// c11AddrOfSlot (R11): `&x` hands out the operand's own storage when it has one. In the handler of the address-of expression
+// the value whose addressability is tested (and whose address is taken) is the value the operand's evaluation left, on every
+// path: a value derived from it (what an interface holds, a copy) is never addressable, so testing the derived value sends
+// every operand to the make-a-copy branch and what Go writes through the pointer is lost.
+func c11AddrOfSlot(p *Program, r *Report, m *vmModel) {
+	h := m.handlers["expr"]["AddrExpr"]
+	if h == nil {
+		r.Undecided("C11.R11", "AddrExpr", "vm", "handler not found")
+		return
+	}
+	tt := newTypeTerms(m, h, nil)
+	n := 0
+	for _, b := range h.Blocks {
+		for _, in := range b.Instrs {
+			c, ok := in.(*ssa.Call)
+			if !ok {
+				continue
+			}
+			rm := reflectMethod(c)
+			if rm != "CanAddr" && rm != "Addr" {
+				continue
+			}
+			n++
+			good, why := false, "the receiver is not read from the value cell"
+			if u, ok := c.Call.Args[0].(*ssa.UnOp); ok && u.Op == token.MUL && tt.m.cellAddr(u.X, tt.base) == "rv" {
+				good = true
+				for d := range tt.before[u]["rv"] {
+					call, isCall := d.(*ssa.Call)
+					if !isCall || m.evalRole(call, tt.base) == "" {
+						good = false
+						if d == nil {
+							why = "the value cell can still hold what it held on entry"
+						} else {
+							why = "the value cell can have been rewritten at " + p.Pos(instrPos(d)) + " after the operand was evaluated"
+						}
+					}
+				}
+			}
+			r.Check(good, "C11.R11", fmt.Sprintf("%s|%s #%d on the evaluated operand", h.Name(), rm, n), p.Pos(c.Pos()),
+				"applied to the value the operand's evaluation left in the value cell", why+": the address handed to Go is that of a copy, not of the variable, element or field the script named")
+		}
+	}
+	r.Floor("C11.R11", n, 2)
 }
